@@ -9,6 +9,7 @@ import (
 	"encoding/json"
 	"fmt"
 	"sort"
+	"time"
 )
 
 // ---------------------------------------------------------------- PRNG
@@ -182,12 +183,12 @@ type Exec func(Script) *Outcome
 // Shrink performs ddmin over the script's elements and then per-element
 // simplification, keeping the same property and oracle id.  budget caps the
 // number of executions.
+// ShrinkWall caps the wall-clock time spent minimising one violation.
+var ShrinkWall = 60 * time.Second
+
 func Shrink(s Script, ex Exec, want *Violation, budget int) (Script, *Violation, int) {
 	execs := 0
-	same := func(c Script) *Violation {
-		if execs >= budget {
-			return nil
-		}
+	once := func(c Script) *Violation {
 		execs++
 		o := ex(c)
 		// same violation = same oracle AND same model-derived class, so that shrinking
@@ -196,6 +197,21 @@ func Shrink(s Script, ex Exec, want *Violation, budget int) (Script, *Violation,
 			return o.V
 		}
 		return nil
+	}
+	// A candidate is accepted when it fails twice in a row: code under test that is not a function of the
+	// script (a Go map's iteration order deciding what it does) would otherwise let the shrinker drift to a
+	// script that fails only now and then.
+	t0 := time.Now()
+	same := func(c Script) *Violation {
+		// the wall-clock cap bounds minimisation effort only (long scheduled scripts execute slowly); the
+		// verdict never depends on it: whatever script is reported is replayed in a fresh process
+		if execs >= budget || time.Since(t0) > ShrinkWall {
+			return nil
+		}
+		if once(c) == nil {
+			return nil
+		}
+		return once(c)
 	}
 	cur, curV := s, want
 	// ddmin: chunks of decreasing size
@@ -252,6 +268,13 @@ func Shrink(s Script, ex Exec, want *Violation, budget int) (Script, *Violation,
 				cur, curV = c, v
 				again = true
 				break
+			}
+		}
+	}
+	if cur != s {
+		for i := 0; i < 3; i++ {
+			if once(cur) == nil {
+				return s, want, execs // the minimised script does not fail reliably: report the original one
 			}
 		}
 	}
